@@ -29,6 +29,8 @@ def patches():
         out.append((os.path.basename(p)[:-6], p, exp))
     for d in sorted(glob.glob(V + "/seeded/*/")):
         m = json.load(open(d + "meta.json")) if os.path.exists(d + "meta.json") else {}
+        if m.get("retired") and not any(a in d for a in sys.argv[1:] if not a.startswith("--")):
+            continue        # no longer distinguishable from the current tree (see meta.json); run it by naming it
         if os.path.exists(d + "patch.diff"):
             exp = m.get("caught_by") or [m.get("property")] if m.get("property") else []
             out.append(("seeded-" + os.path.basename(d.rstrip("/")), d + "patch.diff", [e for e in exp if e]))
